@@ -487,6 +487,7 @@ func vsExec(c vsCfg, ops []vsOp, faults []Fault, x *X) (hist []porcupine.Operati
 			continue
 		case "GetVar", "GetVarInto", "GetVarWithAttributes", "Typed":
 			var got []byte
+			var gotShape string
 			var rerr error
 			var gotAttrs attributes.Attributes
 			func() {
@@ -496,6 +497,7 @@ func vsExec(c vsCfg, ops []vsOp, faults []Fault, x *X) (hist []porcupine.Operati
 					rerr = api.GetVar(v, &shared)
 					if rerr == nil {
 						got = shared.Bytes()
+						gotShape = libStructure(&shared)
 					}
 					x.Probe("read_into_used_destination")
 				case "GetVar":
@@ -522,6 +524,7 @@ func vsExec(c vsCfg, ops []vsOp, faults []Fault, x *X) (hist []porcupine.Operati
 					}
 					if rerr == nil && db != nil {
 						got = db.Bytes()
+						gotShape = libStructure(db)
 					}
 				}
 			}()
@@ -560,6 +563,12 @@ func vsExec(c vsCfg, ops []vsOp, faults []Fault, x *X) (hist []porcupine.Operati
 			if !bytes.Equal(got, want) {
 				x.Fail("register.read_equals_last_write", i, op.Op, "read of %s returned %s, the most recent write stored %s", vs.String(), shortHex(got), shortHex(want))
 				return hist
+			}
+			if gotShape != "" {
+				if ls, derr := refESLDecode(want); derr == nil && refStructure(ls) != gotShape {
+					x.Fail("register.read_equals_last_write", i, op.Op, "read of %s encodes to the bytes that were written, but it is not the database that was written: lists/entries read %s, written %s", vs.String(), gotShape, refStructure(ls))
+					return hist
+				}
 			}
 			if op.Op == "GetVarWithAttributes" && gotAttrs != v.Attributes && writes[op.Var] > 0 {
 				x.Fail("register.read_equals_last_write", i, op.Op, "attributes %#x, written with %#x", gotAttrs, v.Attributes)
